@@ -95,6 +95,14 @@ MarksRoundTrip(d) == \A i \in 1..Len(d) : d[i].k # "c" => \A j \in 1..Len(d[i].m
       vals == MarkAttrs(m) IN
   \A a \in DOMAIN vals : (\E q \in 1..Len(r.back) : r.back[q] = a) \/ (\E q \in 1..Len(r.fixed) : r.fixed[q].n = a /\ r.fixed[q].v = vals[a])
 
+(* ---- style parse rules ---- *)
+(* rules: sequence of [prop, value, mark] as the schema author declared them ("font-style=italic" -> value "italic",   *)
+(* "font-weight" -> value "" = any value); decls: the declarations of one style attribute, [prop, value].  A mark is  *)
+(* applied to the element's content when some rule for it matches some declaration and the parent may hold it.        *)
+StyleMarks(rules, decls) ==
+  {rules[r].mark : r \in {r \in 1..Len(rules) :
+      \E d \in 1..Len(decls) : rules[r].prop = decls[d].prop /\ (rules[r].value = "" \/ rules[r].value = decls[d].value)}}
+
 (* ---- context expressions of parse rules ---- *)
 (* alt: sequence of parts ("" for empty parts); stack: type names root..innermost *)
 InGroupOrName(t, part) == t = part \/ part \in Range(NT(t).groups)
